@@ -1,4 +1,5 @@
-CONSTANT Level = 0
+CONSTANT Fam = 0
+CONSTANT Wide = FALSE
 INIT Init
 NEXT Next
 INVARIANT WellFormed
